@@ -18,6 +18,10 @@ class It:
             raise StopIteration
         if self.end == "inst":
             raise StopIteration()
+        if self.end == "errE":
+            raise Exception("boom")
+        if self.end == "errB":
+            raise BaseException("boom")
         raise KeyError("boom")
 def gen(items, end):
     i = 0
@@ -28,6 +32,10 @@ def gen(items, end):
     LOG.append(1)
     if end == "err":
         raise KeyError("boom")
+    if end == "errE":
+        raise Exception("boom")
+    if end == "errB":
+        raise BaseException("boom")
     if end == "ret":
         return 9
 class Able:
@@ -144,6 +152,12 @@ def run(c, kind, items, end):
         print(['exc', 'TypeError'])
     except StopIteration:
         print(['exc', 'StopIteration'])
+    except (IndexError, AttributeError, NameError, RuntimeError, ZeroDivisionError, ImportError, NotImplementedError, SystemError, AssertionError):
+        print(['exc', 'another class'])
+    except Exception:
+        print(['exc', 'Exception'])
+    except BaseException:
+        print(['exc', 'BaseException'])
     if kind == "listiter" or kind == "rangeiter":
         print(['rest', list(p)])
     else:
